@@ -588,7 +588,7 @@ func genC11Conc(t *rapid.T) interface{} {
 	c := &c11ConcCase{Engine: EnvStr("VERIF_ENGINE", EngMem)}
 	n := rapid.IntRange(3, 12).Draw(t, "nrounds")
 	for i := 0; i < n; i++ {
-		c.Rounds = append(c.Rounds, c11Round{Kind: rapid.SampledFrom([]string{"pine", "cas", "delcur", "skew"}).Draw(t, "kind"), N: rapid.IntRange(2, 4).Draw(t, "n")})
+		c.Rounds = append(c.Rounds, c11Round{Kind: rapid.SampledFrom([]string{"pine", "cas", "delcur", "skew", "readers"}).Draw(t, "kind"), N: rapid.IntRange(2, 4).Draw(t, "n")})
 	}
 	return c
 }
@@ -606,6 +606,100 @@ func runC11Conc(ci interface{}, st *CaseStats) error {
 	for ri, r := range c.Rounds {
 		key := []byte(fmt.Sprintf("c11c/key-%d", ri))
 		v0 := []byte("v0")
+		if r.Kind == "readers" {
+			// readers only: 2..4 goroutines iterate intervals whose bounds lie between / outside the stored keys and get
+			// stored and never-written keys at the same time; nobody writes, so every answer is known
+			sb := kv.BeginBatchWrite()
+			for i := 0; i < 40; i += 2 {
+				sb.Put([]byte(fmt.Sprintf("c11c/rd-%d/k%03d", ri, i)), []byte(fmt.Sprintf("val%03d", i)), 0)
+			}
+			if err := sb.Commit(ctx); err != nil {
+				return Inconclusivef("seed: %v", err)
+			}
+			start := make(chan struct{})
+			errs := make([]error, r.N)
+			var wg sync.WaitGroup
+			for g := 0; g < r.N; g++ {
+				wg.Add(1)
+				go func(g int) {
+					defer wg.Done()
+					<-start
+					for n := 0; n < 150 && errs[g] == nil; n++ {
+						lo, hi := (n*7+g*3)%39, 0
+						hi = lo + 1 + (n*5+g)%(40-lo)
+						if lo%2 == 0 {
+							lo++ // a bound that is not a stored key
+						}
+						from, to := []byte(fmt.Sprintf("c11c/rd-%d/k%03d", ri, lo)), []byte(fmt.Sprintf("c11c/rd-%d/k%03d", ri, hi))
+						backward := (n+g)%3 == 0
+						var it storage.Iter
+						var err error
+						if backward {
+							it, err = kv.Iter(ctx, to, from, 0, 0)
+						} else {
+							it, err = kv.Iter(ctx, from, to, 0, 0)
+						}
+						if err != nil {
+							errs[g] = fmt.Errorf("reader %d: iterator: %v", g, err)
+							return
+						}
+						var got []string
+						for {
+							e := it.Next(ctx)
+							if e == io.EOF {
+								break
+							}
+							if e != nil {
+								errs[g] = fmt.Errorf("reader %d: iterator step: %v", g, e)
+								break
+							}
+							k, v := string(it.Key()), string(it.Val())
+							if !strings.HasSuffix(k, v[len(v)-3:]) || !strings.HasPrefix(v, "val") {
+								errs[g] = fmt.Errorf("reader %d: iteration %q -> %q (backward=%v) yields key %q with value %q while nobody writes", g, from, to, backward, k, v)
+								break
+							}
+							got = append(got, k)
+						}
+						_ = it.Close()
+						var want []string
+						for i := 0; i < 40; i += 2 {
+							in := i >= lo && i < hi
+							if backward {
+								in = i > lo && i <= hi
+							}
+							if in {
+								want = append(want, fmt.Sprintf("c11c/rd-%d/k%03d", ri, i))
+							}
+						}
+						if backward {
+							for a, b := 0, len(want)-1; a < b; a, b = a+1, b-1 {
+								want[a], want[b] = want[b], want[a]
+							}
+						}
+						if errs[g] == nil && strings.Join(got, ",") != strings.Join(want, ",") {
+							errs[g] = fmt.Errorf("reader %d: iteration %q -> %q (backward=%v) yields %v, want %v (nobody writes)", g, from, to, backward, got, want)
+						}
+						// a key that was never written, and one that was
+						if v, err := kv.Get(ctx, from); err != storage.ErrKeyNotFound {
+							errs[g] = fmt.Errorf("reader %d: Get of the never-written key %q returned (%q, %v)", g, from, v, err)
+						}
+						ek := (lo + 1) % 40
+						if v, err := kv.Get(ctx, []byte(fmt.Sprintf("c11c/rd-%d/k%03d", ri, ek))); err != nil || string(v) != fmt.Sprintf("val%03d", ek) {
+							errs[g] = fmt.Errorf("reader %d: Get of stored key k%03d returned (%q, %v)", g, ek, v, err)
+						}
+					}
+				}(g)
+			}
+			close(start)
+			wg.Wait()
+			for _, e := range errs {
+				if e != nil {
+					return fmt.Errorf("round %d (readers): %v", ri, e)
+				}
+			}
+			st.Label("round:concurrent-readers")
+			continue
+		}
 		if r.Kind == "skew" {
 			// two batches, each conditioned on a key the other one overwrites (its compare-and-swap leaves the value as
 			// it is — a pure guard): whatever the order, the second one's condition no longer holds
